@@ -12,7 +12,7 @@ MANIFEST = {
             'is turned into an executable through every builder (Parser compile, Cell compile, dictionary model, file model, deep copy, JSON round trip, ExcelModel.compile with the '
             'volatile cell upstream of, downstream of and unrelated to the inputs) and evaluated along every history of length <= 4 (thorough 6) over {advance 1 s, advance 1 day, evaluate}. '
             'The wall clock is a fake datetime module bound into the library, the RNG is seeded and a twin stream predicts every draw: each evaluation must show the clock of that '
-            'evaluation and consume exactly one fresh draw per random call site; diamonds of dependents must see one single value.',
+            'evaluation and consume exactly one fresh draw per random call site; diamonds of dependents must see one single value. RANDBETWEEN is also called 40 times on each of 17 bound pairs (integer, fractional, empty, invalid).',
     'note': 'Trusted: the fake clock and twin RandomState in this file, ref/scalar.py for the surrounding arithmetic. RANDBETWEEN values are judged for range, integrality and freshness (draw consumed), not the exact value.',
 }
 RULE = 'case = (program, builder) with all histories run inside; non-trivial = evaluated at least twice with the clock advanced; distinct = case key'
